@@ -122,10 +122,10 @@ class IncludeNode(ConfigNode):
             raise FileNotFoundError({ 'missing': missing, 'lookup_dirs': list(subbuilder.get_lookup_dirs(self._source_file)), 'source': self._source_file })
 
         ret = subbuilder.build()
-        if self._priority != ConfigNode.STANDARD and isinstance(ret, ConfigNode):
+        if self.ayns.priority != ConfigNode.STANDARD and isinstance(ret, ConfigNode):
             # the priority of the place the include stands at (a !weak / !force container above it) is that of the content it puts there -
             # once the included documents have been merged among themselves, with the priorities they carry, see StreamNode
-            ret._priority = self._priority
+            ret._priority = self.ayns.priority
         return ret.ayns.on_preprocess(path, builder)
 
 
